@@ -2,7 +2,7 @@ CONSTANTS
   MaxBlocks = 2
   MaxDepth = 2
   Level = 0
-  EnabledKinds = {"para", "atx", "setext", "hr", "fence", "code", "def", "quote", "list"}
+  EnabledKinds = {"para", "atx", "setext", "hr", "fence", "code", "def", "quote", "list", "table", "html"}
 INIT Init
 NEXT Next
 INVARIANT TypeOK
